@@ -1,7 +1,7 @@
 /-
-  C05 / C02 on the REGENERATED source: `tinyjambu_permutation_128` and `tinyjambu_permutation_256`
-  (src/backend/tinyjambu-128-c32.c, tinyjambu-256-c32.c, translated by tools/c2lean.py into TJ.Gen.MiniC.Prog) compute
-  exactly the word-level models `TJ.perm128` / `TJ.perm256`, which TJ.Props.C05.c_backend_is_spec /
+  C05 / C02 on the REGENERATED source: `tinyjambu_permutation_128`, `_192` and `_256`
+  (src/backend/tinyjambu-{128,192,256}-c32.c, translated by tools/c2lean.py into TJ.Gen.MiniC.Prog) compute
+  exactly the word-level models `TJ.perm128` / `TJ.perm192` / `TJ.perm256`, which TJ.Props.C05.c_backend_is_spec /
   TJ.Props.C02.permutation_is_nlfsr equate with the specification's bit-serial StateUpdate.
 
   For every state, every key, every round count below 2^32 (0 and odd counts included), wherever the state object
@@ -10,9 +10,10 @@
     * the four state words of the object hold `perm128 key rounds s` (`perm256 key rounds s`) afterwards;
     * the key words, every other byte of the object, and every other block of memory are unchanged.
   A shift amount, operand rotation, key index, loop bound, early exit or store offset that differs from the model
-  makes this file (or TJ.Proofs.PermC / PermCBody) stop compiling.
+  makes this file (or TJ.Proofs.PermC / PermCBody / PermC192) stop compiling.
 -/
 import TJ.Proofs.PermCBody
+import TJ.Proofs.PermC192
 import TJ.Proofs.SpecTop
 namespace TJ.Props.C05Gen
 open TJ TJ.MiniC TJ.MiniC.PermC TJ.Gen.MiniC
@@ -103,6 +104,39 @@ theorem permutation_256_source_is_model (m : Nat) (st : St) (bs : Nat) (blk : Bl
   obtain ⟨leak', bytes', hcall, hsz', p0, p1, p2, p3, hout⟩ := call_generic idx_tinyjambu_permutation_256 f_tinyjambu_permutation_256 32 prog_perm256
     body256_eq rfl rfl rfl m st bs blk s (perm256 key r s) _ _ _ _ _ _ _ _ r hr km obj.s0 obj.s1 obj.s2 obj.s3 (permNG_eq256 key r s)
   exact ⟨leak', bytes', hcall, obj.after hsz' p0 p1 p2 p3 hout, hout⟩
+
+theorem prog_perm192 : prog[idx_tinyjambu_permutation_192]? = some f_tinyjambu_permutation_192 := by
+  simp only [prog, idx_tinyjambu_permutation_192, List.getElem?_cons_succ, List.getElem?_cons_zero]
+
+theorem permutation_192_source_is_model (m : Nat) (st : St) (bs : Nat) (blk : Block) (s : W4) (key : Key) (r : Nat)
+    (hr : r < 4294967296) (hb : st.mem[bs]? = some blk) (hbb : bs < 2 ^ 30) (obj : StateObj 6 blk.bytes blk.base s key) :
+    ∃ leak' bytes',
+      callFun prog (m + r + 28) idx_tinyjambu_permutation_192 false [(mkPtr bs blk.base, .pub), (r, .pub)] st =
+        .ok .normal #[(0, .pub), (mkPtr bs blk.base, .pub), (r, .pub)] { st with leak := leak', mem := setBlock st.mem bs bytes' } ∧
+      StateObj 6 bytes' blk.base (perm192 key r s) key ∧
+      (∀ j, 16 ≤ j → bytes'[j]? = blk.bytes[j]?) := by
+  have hsz := obj.sz
+  have km : KM192 st bs blk (kw key 0).toNat (kw key 1).toNat (kw key 2).toNat (kw key 3).toNat (kw key 4).toNat (kw key 5).toNat :=
+    ⟨hb, obj.al, obj.lt, hbb, by omega, obj.keys 0 (by decide), obj.keys 1 (by decide), obj.keys 2 (by decide), obj.keys 3 (by decide),
+      obj.keys 4 (by decide), obj.keys 5 (by decide)⟩
+  obtain ⟨leak', h⟩ := perm192_call prog idx_tinyjambu_permutation_192 prog_perm192 (fun i => i) (fun _ => rfl) m
+    #[(0, .pub), (mkPtr bs blk.base, .pub), (r, .pub)] st (.var 1) (.var 2) r s.a.toNat s.b.toNat s.c.toNat s.d.toNat
+    _ _ _ _ _ _ bs blk hr km (by simp [evalE]) (by simp [evalE]) obj.s0 obj.s1 obj.s2 obj.s3
+  have hP := permN192_eq key r s
+  simp only [toN] at hP
+  simp only [hP] at h
+  have h16 : 16 ≤ blk.bytes.size := Nat.le_trans (by decide) obj.sz
+  have hcall : callFun prog (m + r + 28) idx_tinyjambu_permutation_192 false [(mkPtr bs blk.base, .pub), (r, .pub)] st =
+      .ok .normal #[(0, .pub), (mkPtr bs blk.base, .pub), (r, .pub)] { st with leak := leak', mem := (setBlock st.mem bs
+        (bytesAfter blk.bytes (perm192 key r s).a.toNat (perm192 key r s).b.toNat (perm192 key r s).c.toNat (perm192 key r s).d.toNat)) } := by
+    unfold callFun
+    simp only [List.length_cons, List.length_nil, List.range, List.range.loop, List.map, Bool.false_eq_true, if_false, Nat.zero_add]
+    exact h
+  have hout : ∀ j, 16 ≤ j → (bytesAfter blk.bytes (perm192 key r s).a.toNat (perm192 key r s).b.toNat (perm192 key r s).c.toNat (perm192 key r s).d.toNat)[j]? = blk.bytes[j]? :=
+    fun j hj => bytesAfter_out _ _ _ _ _ j hj
+  exact ⟨leak', _, hcall, obj.after (size_bytesAfter _ _ _ _ _)
+    (bytesAfter_w0 blk.bytes _ _ _ _ (UInt32.toNat_lt _) h16) (bytesAfter_w1 blk.bytes _ _ _ _ (UInt32.toNat_lt _) h16)
+    (bytesAfter_w2 blk.bytes _ _ _ _ (UInt32.toNat_lt _) h16) (bytesAfter_w3 blk.bytes _ _ _ _ (UInt32.toNat_lt _) h16) hout, hout⟩
 
 /-- with TJ.Props.C05.c_backend_is_spec: the words the regenerated C functions leave are the specification's
     StateUpdate applied 128·rounds times -/
